@@ -405,6 +405,7 @@ func Observe(label string, v interface{}) {
 func Replay(harnesses map[string]func()) (status, detail string) {
 	Reset()
 	load()
+	defer removeTempFiles()
 	h, ok := harnesses[cex.Harness]
 	if !ok {
 		return "error", "no harness " + cex.Harness
